@@ -1376,7 +1376,9 @@ fn sparql_value(input: &str) -> IResult<&str, Value> {
 fn sparql_values_clause(input: &str) -> IResult<&str, ValuesClause<'_>> {
     let (mut input, _) = sparql_keyword(input, "VALUES")?;
     let mut variables = Vec::new();
+    let mut parenthesised = false;
     if let Ok((after_open, _)) = sparql_char(input, '(') {
+        parenthesised = true;
         input = after_open;
         loop {
             input = sparql_skip_ws(input);
@@ -1406,7 +1408,7 @@ fn sparql_values_clause(input: &str) -> IResult<&str, ValuesClause<'_>> {
             break;
         }
         let mut row = Vec::new();
-        if variables.len() == 1 {
+        if !parenthesised {
             let (remaining, value) = sparql_value(input)?;
             row.push(value);
             input = remaining;
